@@ -188,8 +188,36 @@ class Core:
             return ['if %s:' % self.bool_expr(env), ind + r.choice(['break', 'continue'])]
         if c < 0.96 and in_func:
             return ['if %s:' % self.bool_expr(env), ind + r.choice(['return', 'return None', 'return ' + self.int_expr(env)])]
+        if c < 0.985:
+            return self.imports()
         e, t = self.any_expr(env)
         return ['print(%s)' % e]
+
+    MODULES = ['os', 'sys', 'math', 'json', 're', 'string', 'itertools', 'functools', 'collections', 'os.path', 'collections.abc',
+               'json.decoder', 'json.encoder']
+    FROM = {'os': ['path', 'sep', 'getcwd', 'environ'], 'math': ['pi', 'floor', 'sqrt'], 'collections': ['OrderedDict', 'deque', 'abc'],
+            'json': ['dumps', 'loads', 'decoder'], 'itertools': ['chain', 'count'], 'functools': ['reduce', 'partial'],
+            'os.path': ['join', 'basename'], 'string': ['digits', 'ascii_letters']}
+
+    def imports(self):
+        """a run of adjacent import statements (what combine_imports merges): the names they bind are not used afterwards"""
+        r = self.rng
+        out = []
+        for _ in range(r.randint(1, 4)):
+            if r.random() < 0.5:
+                names = []
+                for _ in range(r.randint(1, 3)):
+                    m = r.choice(self.MODULES)
+                    names.append(m + (' as %s' % self.fresh('m') if r.random() < 0.35 else ''))
+                out.append('import ' + ', '.join(names))
+            else:
+                m = r.choice(sorted(self.FROM)) if r.random() < 0.7 or not out or not out[-1].startswith('from ') else out[-1].split()[1]
+                names = []
+                for _ in range(r.randint(1, 3)):
+                    x = r.choice(self.FROM[m])
+                    names.append(x + (' as %s' % self.fresh('m') if r.random() < 0.35 else ''))
+                out.append('from %s import %s' % (m, ', '.join(names)))
+        return out
 
     def function(self, genv):
         r = self.rng
